@@ -61,28 +61,28 @@ func init() {
 		ruleC04Census, ruleC04Canon, ruleC04Float, ruleC04Normalised("C04.normalised"), ruleC04Ext)
 
 	mk("C05", "Output round-trips in every format: what bkl writes reads back unchanged",
-		"census of the format table (writer and reader reach the same codec package), separator literals matched against the reader's splitter pattern, path-effect summaries of every stream encoder/decoder (no document lost), format-choice flow in cmd/bkl.main and the Output* methods",
+		"interprocedural may-be-nil analysis of every map/slice boxed into a tree value (empty containers stay containers, never a typed nil that prints as null); census of the format table (writer and reader reach the same codec package), separator literals matched against the reader's splitter pattern, path-effect summaries of every stream encoder/decoder (no document lost), format-choice flow in cmd/bkl.main and the Output* methods",
 		"C05 decides only the agreement between bkl's own writer and reader halves and the choice of format: same codec per table entry, aliases identical, every separator the writer emits is one the reader splits on, streams encode/decode every document in order, and -f > -o extension > first input's extension.",
 		"DESIGN.md §5 C05",
 		[]string{"decode(encode(x)) = x for look-alike strings, doubles, empty containers (third-party codecs)", "agreement with independent parsers"},
 		nil,
-		ruleC05Table, ruleC05Sep, ruleC05All, ruleBklMainFormat)
+		ruleC05Table, ruleC05Sep, ruleC05All, ruleBklMainFormat, ruleTypedNil("C05.typednil"))
 
 	mk("C06", "Plain data passes through unchanged; $$ escapes any literal dollar",
-		"path-effect summaries of finalizeOutput, validate, outputDocument and the process1 family; census of every $-literal used to recognise directives; call-graph check that the unescape is applied exactly once",
+		"interprocedural may-be-nil analysis of every map/slice boxed into a tree value (an empty map or list is never replaced by a typed nil); path-effect summaries of finalizeOutput, validate, outputDocument and the process1 family; census of every $-literal used to recognise directives; call-graph check that the unescape is applied exactly once",
 		"C06 decides the structural facts that make the escape sound: the $$ -> $ unescape is applied exactly once, to keys and values, after validation; every directive test is an exact comparison or prefix test on $+letter so no $$-prefixed string can satisfy it; the validator rejects only $required and $+lower-case; non-directive maps, lists and strings are rebuilt unchanged (only nulls dropped).",
 		"DESIGN.md §5 C06",
 		[]string{"exotic strings through deepClone's YAML round trip", "collisions of unescaped keys (made deterministic by the D6 repair, not prevented)", "process2's identity part is checked only through its directive dispatch (C13/C14)"},
 		nil,
-		ruleFinalize, ruleOutputGate("C06"), ruleValidate("C06"), ruleMarshalRoute, ruleC10Dispatch, ruleDollarCensus)
+		ruleTypedNil("C06.typednil"), ruleFinalize, ruleOutputGate("C06"), ruleValidate("C06"), ruleMarshalRoute, ruleC10Dispatch, ruleDollarCensus)
 
 	mk("C07", "No unresolved $required or stray directive ever reaches the output",
 		"must-pass-through on path-effect summaries of outputDocument (filter, then validate with checked error, then finalise), coverage of validate (every key, value and element), predicate of validateString, who may call a MarshalStream, $encode validates its input",
 		"C07 decides that every emitted value passed the hiding pass, then validation (error checked), then finalisation; that the validator visits every position and rejects exactly $required and $+lower-case strings; that nothing is encoded except validated output; that $encode validates its evaluated subtree first.",
 		"DESIGN.md §5 C07",
-		[]string{"whether an empty upper list 'actually overrides' a $required list entry"},
+		[]string{"whether an empty upper list 'actually overrides' a $required list entry (the list marker is shown to be removed only by a child list; the map-valued marker follows the ordinary merge table, C01)"},
 		nil,
-		ruleOutputGate("C07"), ruleValidate("C07"), ruleMarshalRoute, ruleC07Encode("C07.encode"))
+		ruleOutputGate("C07"), ruleValidate("C07"), ruleMarshalRoute, ruleC07Encode("C07.encode"), ruleC07Required)
 
 	mk("C08", "Every invocation terminates with complete output or a reported error",
 		"panic-site audit over SSA (unchecked type assertions, compiler-unproven bounds checks matched to discharge patterns, explicit panics, division, nil-map writes), per-call-site classification of every cycle of a closure-aware call graph (depth-guarded / visited-guarded / structural on acyclic data), dropped-error audit, path summaries of the mains (failed step => stderr + non-zero exit, stdout written last)",
@@ -90,7 +90,7 @@ func init() {
 		"DESIGN.md §5 C08, §4.2, §4.6, §4.8",
 		[]string{"memory exhaustion by breadth of reference expansion (the guard bounds depth only)", "termination and crash freedom of encoding/json, yaml.v3, go-toml on arbitrary bytes", "nil-pointer dereferences other than those excluded by the error-check discipline"},
 		[]string{"Trees handed to the structural recursions are acyclic: decoders build trees and merge sources are private copies (C08.acyclic).", "Document.Parents is acyclic unless the API is misused by merging a *Document into itself."},
-		rulePanic, ruleRecursion, ruleLoops, ruleMergeSourcesPrivate("C08.acyclic"), ruleCLIExit, ruleDroppedErrors)
+		rulePanic, ruleRecursion, ruleLoops, ruleNilMap, ruleMergeSourcesPrivate("C08.acyclic"), ruleCLIExit, ruleDroppedErrors)
 
 	mk("C09", "Evaluation is deterministic",
 		"order-sensitivity audit of every native map range (commutative writes / boolean fold / first-error shapes), contract of the sortedMap iterator, census of package-level state written outside init, census of nondeterminism sources reachable from evaluation, ownership rule against merging aliased trees",
@@ -98,7 +98,7 @@ func init() {
 		"DESIGN.md §5 C09, §4.5, §4.7",
 		[]string{"determinism of the codecs, the Go runtime and the OS", "which of several errors is reported first (only success/failure is covered)"},
 		[]string{"One file per layer name (the property's own precondition) for findFile's map range."},
-		ruleMapRanges, ruleSortedMap, ruleGlobals, ruleNondetSources, ruleMergeSourcesPrivate("C09.alias"))
+		ruleMapRanges, ruleSortedMap, ruleGlobals, rulePools, ruleNondetSources, ruleMergeSourcesPrivate("C09.alias"))
 
 	mk("C10", "$merge and $replace behave as if the referenced subtree were written inline",
 		"path-effect summaries of Document.Process (phase order), the process1 family (dispatch), get/getPath/getCross/getCrossDoc (lookup tables), matchMap (placeholder rule); ownership analysis: results of get never reach a mutating position",
@@ -106,7 +106,7 @@ func init() {
 		"DESIGN.md §5 C10",
 		[]string{"keys containing dots", "interaction of references with $output: false templates beyond the phase order"},
 		nil,
-		ruleC10Phase, ruleC10Dispatch, ruleC10Lookup, ruleReferencesReadOnly, ruleC01Match)
+		ruleC10Phase, ruleC10Dispatch, ruleC10Lookup, ruleC10Universe, ruleReferencesReadOnly, ruleC01Match)
 
 	mk("C11", "$output selects exactly the marked subtrees and hides exactly the excluded ones",
 		"path-effect summaries of findOutputs, filterOutput and outputDocument against the selection / hiding tables",
@@ -149,12 +149,12 @@ func init() {
 		ruleC15Table, ruleC15Seq, ruleC15Compose, ruleC15Dir, ruleMarkerVocabulary("C15.vocab", map[string][]string{"cmd/bkld": {"$delete", "$replace", "$match"}}))
 
 	mk("C16", "bkli yields the maximal common base, and the migrate workflow is lossless",
-		"path-effect summaries of intersect against the intersection table, per-element accumulation (loop-exit analysis), left fold in main, marker literal agreement with the validator",
+		"path-effect summaries of intersect against the intersection table, may-be-nil analysis of every container boxed into the result, per-element accumulation (loop-exit analysis), left fold in main, marker literal agreement with the validator",
 		"C16 decides the intersection table (nil, equal/different scalars, kind mismatch, map keys present in both, list membership), that a common list entry is accumulated once, that main folds the inputs left to right, and that the $required marker it emits is the one the evaluator rejects.",
 		"DESIGN.md §5 C16",
 		[]string{"maximality", "[] ∩ []", "the bkli + bkld + bkl round trip"},
 		nil,
-		ruleC16Table, ruleC16Fold, ruleMarkerVocabulary("C16.marker", map[string][]string{"cmd/bkli": {"$required"}}), ruleValidate("C16"))
+		ruleC16Table, ruleTypedNil("C16.typednil"), ruleC16Fold, ruleMarkerVocabulary("C16.marker", map[string][]string{"cmd/bkli": {"$required"}}), ruleValidate("C16"))
 
 	mk("C17", "bklr keeps exactly the $required skeleton and agrees with bkl on what is missing",
 		"path-effect summaries of required against the skeleton table; marker literal agreement between bklr and the evaluator's validator",
